@@ -26,5 +26,6 @@ try:
         print(name, pr, "exit", r.returncode, "|", " ; ".join(l for l in lines if l.startswith("VIOLATION"))[:300])
 finally:
     subprocess.run("git -C /repo checkout -- .", shell=True, check=True)
+    subprocess.run("git -C /repo clean -fdq src/visions tests", shell=True, check=True)     # files a patch added
     shutil.rmtree("/verif/evidence"); shutil.copytree(keep + "/evidence", "/verif/evidence"); shutil.rmtree(keep)
     subprocess.run(["/venv/bin/python", "/verif/harness/translate.py"], stdout=subprocess.DEVNULL)
